@@ -32,6 +32,7 @@ func main() {
 	seed := flag.Int("seed", 0, "solver seed")
 	list := flag.Bool("list", false, "list obligations only")
 	noEvidence := flag.Bool("no-evidence", false, "do not write the evidence file")
+	verbose := flag.Bool("v", false, "print obligations that took more than a second")
 	devContracts := flag.Bool("dev", false, "use /verif/contracts/verif_contracts.go even if the repo has its own copy (development)")
 	flag.Parse()
 	if s := os.Getenv("VERIF_SEED"); s != "" && *seed == 0 {
@@ -168,6 +169,13 @@ func main() {
 		}(i, it)
 	}
 	wg.Wait()
+	if *verbose {
+		for _, it := range run.items {
+			if it.Res.Seconds > 1 {
+				fmt.Printf("slow %.1fs %s :: %s [%s by %s]\n", it.Res.Seconds, it.Obl.Func, it.Obl.Name, it.Res.Status, it.Res.Solver)
+			}
+		}
+	}
 	code := run.report(*noEvidence)
 	os.Exit(code)
 }
